@@ -293,6 +293,10 @@ inductive Stmt where
   | ext (j : Nat) (name : Str) (ext : Str)
   /-- `b.write_output(ref, dest)` -/
   | out (r : Ref) (dest : Str)
+  /-- `b.new_python_job(name)` -/
+  | pyjob (name : Option Str)
+  /-- `j.call(f, *args)` on a PythonJob with resource arguments -/
+  | pycall (j : Nat) (args : List Ref)
   deriving Repr
 
 def token (n : Nat) : Str := ['t', 'k'] ++ Nat.toDigits 10 n
@@ -371,6 +375,26 @@ def renderPieces (st : St) : List Piece → Str → Except Err (St × Str)
     | .error e => .error e
     | .ok (st', rid) => renderPieces st' ps (acc ++ rid.render)
 
+/-- the argument expressions of `j.call(f, a₁, a₂, …)` are evaluated left to right before the call -/
+def resolveAll (st : St) : List Ref → Except Err (St × List Rid)
+  | [] => .ok (st, [])
+  | r :: rs =>
+    match resolve st r with
+    | .error e => .error e
+    | .ok (st1, rid) =>
+      match resolveAll st1 rs with
+      | .error e => .error e
+      | .ok (st2, rids) => .ok (st2, rid :: rids)
+
+/-- `handle_args(args)` of `PythonJob.call`: `handle_arg` is the bookkeeping of the command handler (`applyRef`) without a
+replacement text.  (The `PythonResult` the call creates only enters the job's own `_valid`/`_mentioned`; it is not modelled.) -/
+def applyRefs (st : St) (c : Nat) : List Rid → Except Err St
+  | [] => .ok st
+  | r :: rs =>
+    match applyRef st c r with
+    | .error e => .error e
+    | .ok st1 => applyRefs st1 c rs
+
 def addInputFiles (st : St) (root : Str) (g : Option Nat) : List (Str × Str) → St × List (Str × Nat)
   | [] => (st, [])
   | (ident, path) :: rest =>
@@ -446,6 +470,17 @@ def step (st : St) : Stmt → Except Err St
         | some (.jobFile _ _ _ true) => .error .batchException      -- "Resource already has a file extension added."
         | _ => .error .notDsl
       | _ => .error .notDsl                                         -- a ResourceGroup has no add_extension
+    else .error .notDsl
+  | .pyjob name =>
+    let tok := token (st.tokCount + 1)
+    let j := st.nJobs
+    .ok { st with tokCount := st.tokCount + 1, nJobs := j + 1,
+                  job := fun k => if k = j then JobSt.empty (jobDirname name tok) else st.job k }
+  | .pycall j args =>
+    if j < st.nJobs then
+      match resolveAll st args with
+      | .error e => .error e
+      | .ok (st1, rids) => applyRefs st1 j rids
     else .error .notDsl
   | .out r dest =>
     match resolve st r with
